@@ -633,7 +633,7 @@ fn mutate(w: &World, r: &mut ChaCha20Rng, c: &mut Certificate) -> &'static str {
             "protocol_message"
         }
         11 => {
-            c.signed_message = hexish(r);
+            c.signed_message = if below(r, 2) == 0 { hexish(r) } else { rand_string(r) };
             "signed_message"
         }
         12 => {
